@@ -225,6 +225,7 @@ func (c *Collector) RequireClasses(t testing.TB, keys ...string) {
 // journal writes the current case to $VERIF_OUT/current.<pid> so that a
 // process-killing failure still leaves a replayable description behind.
 func journal(format string, args ...any) {
+	noteProgress(fmt.Sprintf(format, args...))
 	dir := os.Getenv("VERIF_OUT")
 	if dir == "" || journalOff {
 		return
